@@ -237,6 +237,11 @@ func (p *Path) Decode(format string, v string) bool {
 		}
 	}
 
+	// the recorder never produces out-of-range fields; time.Date() would normalize them
+	if month < 1 || month > 12 || day < 1 || day > 31 || hour > 23 || minute > 59 || second > 59 {
+		return false
+	}
+
 	if unixSec > 0 {
 		p.Start = time.Unix(unixSec, int64(micros)*1000)
 	} else {
